@@ -407,8 +407,9 @@ def url_class(p, s):
 # ---------------------------------------------------------------------------------------
 COLS = ["a", "b", "c", "d", "likes"]
 TAILS = ["", " ORDER BY id", " LIMIT 1000", " GROUP BY id"]
-LIKE_PATS = ["x%", "%x%", "_", "%", "a_c", "%like%", "x", "%c", "x'%"]
-LITS = ["", "x", "1", "dislike", "axc", "o'k"]
+LIKE_PATS = ["x%", "%x%", "_", "%", "a_c", "%like%", "x", "%c", "x'%",
+             "%(x%", "x)%", "%(%", "%)", "% OR %", "%x AND c%", "(%"]          # unbalanced parentheses / keywords inside literals
+LITS = ["", "x", "1", "dislike", "axc", "o'k", "(x", "x OR y", "a) AND (b"]
 NE_LITS = ["'x", "'", "x", "'%", "x'", "''c", "like"]
 
 
@@ -446,7 +447,18 @@ def gen_factor(rng, bias=None):
     return {"negs": negs, "body": ("atom", gen_atom(rng))}
 
 
+PAREN_PATS = ["%(x%", "x)%", "%(%", "%)", "(%"]
+
+
 def gen_clause(rng):
+    if rng.random() < 0.12:      # col LIKE '%(x%' OR col = 'v' AND col <> ''  (and variants with ')' / two literals)
+        f = lambda a: {"negs": 0, "body": ("atom", a)}
+        first = [f((rng.choice(["like", "notlike"]), rng.randrange(5), rng.choice(PAREN_PATS)))]
+        if rng.random() < 0.4:
+            first.append(f(("eq", rng.randrange(5), rng.choice(["(x", "x", "a) AND (b"]))))
+        last = [f(gen_atom(rng, rng.choice(["eq", "like", "isnull"]))), f(("nonempty", rng.randrange(5)))]
+        mid = [[f(("like", rng.randrange(5), rng.choice(["%)", "x)%", "%x%"])))]] if rng.random() < 0.3 else []
+        return [first] + mid + [last]
     nch = rng.choice([1, 1, 1, 2, 2, 3])
     cl = []
     for ci in range(nch):
@@ -515,7 +527,7 @@ def clause_coq(cl):
 
 
 def like_rows(rng, tier):
-    vals = [None, "", "x", "xx", "axc", "1", "like", "c", "'x", "x'x", "p", "p'x"]
+    vals = [None, "", "x", "xx", "axc", "1", "like", "c", "'x", "x'x", "p", "p'x", "(x", "x)", "a OR b", "(x AND c)", "x OR y"]
     rows = [["x", "0", "", None, None], ["p", None, "z", None, None], ["p'x", None, "z", None, None]]   # witness rows of the two LIKE refutations
     n = 70 if tier == "quick" else 200
     seen = {tuple(r) for r in rows}
